@@ -292,7 +292,9 @@ Dedup(s) == [i \in DOMAIN DedupSeq(s) |-> DedupSeq(s)[i].x]
 \* hand: a new TxSent entry, the selected inputs Locked, the proof info copied from that slate
 LateStep(c, ctx0, r) ==
   LET g == ctx0.nsel + 1
-      lockok == ~(r.pp.on /\ ~ctx0.pidx) IN      \* "Payment proof derivation index required": nothing committed
+      \* lock_tx_context refuses ("Payment proof derivation index required"), or tx_lock_outputs cannot even rebuild
+      \* a slate that came without a transaction (repopulate_tx -> update_kernel -> kernel_features()): nothing locked
+      lockok == ~(r.pp.on /\ ~ctx0.pidx) /\ (r.hascoms \/ Msg(r.feat, ctx0.fee, r.args) # BadMsg) IN
   [ctx0 EXCEPT !.ins = SelIns(c, g), !.outs = SelChg(c, g), !.late = ("late_take" \in Skip), !.nsel = g,
                !.locked = lockok, !.resv = IF lockok THEN ctx0.resv \o SelIns(c, g) ELSE ctx0.resv,
                !.nsent = IF lockok THEN ctx0.nsent + 1 ELSE ctx0.nsent,
@@ -351,6 +353,8 @@ Finalize(c, ctxs, r) ==
   \* S2 branch, late lock (since 2b7911c): before anything is selected or locked the reply must carry a
   \* proof naming the recipient the original send arguments asked for
   IF ~inv /\ ctx0.late /\ ctx0.pidx /\ ~(r.pp.on /\ r.pp.raddr = ReqAddr) THEN Err("proof")
+  \* S2 branch, late lock: tx_lock_outputs rebuilds a slate that has no transaction and needs its kernel features
+  ELSE IF ~inv /\ ctx0.late /\ ~r.hascoms /\ Msg(r.feat, ctx0.fee, r.args) = BadMsg THEN Err("features")
   \* S2 branch, late lock: lock_tx_context wants the derivation index when the reply carries a proof
   ELSE IF ~inv /\ ctx0.late /\ r.pp.on /\ ~ctx0.pidx THEN Err("proof")
   ELSE IF ~inv /\ a.fee = -1 THEN Err("fee")                         \* "Missing fee fields"
